@@ -249,3 +249,8 @@ def run(ctx):
     r12_2(ctx)
     r12_2b(ctx)
     r12_3(ctx)
+    # PERT = CPM presupposes the dependency structure the user built: a backward run must hand it back unchanged
+    from .C17 import r17_1, r17_2, r17_3
+    r17_1(ctx)
+    r17_2(ctx)
+    r17_3(ctx)
